@@ -299,6 +299,24 @@ func (x *Exec) specIdent(e *ast.Ident, env *SpecEnv) TV {
 		return v
 	}
 	if le, ok := env.lets[name]; ok {
+		// inside a let, the parameters of the function under verification denote their entry values
+		// (a local or loop variable of the same name must not capture them)
+		if !env.noLocals && x.entry != nil && x.top != nil && len(x.frames) > 0 && x.frames[len(x.frames)-1].fi == x.top {
+			n := *env
+			n.vars = copyVars(env.vars)
+			_, ps, _ := x.paramObjs(x.top.Decl.Type, x.top.Decl.Recv)
+			for _, po := range ps {
+				if po == nil {
+					continue
+				}
+				if v, ok := x.entry.vars[po]; ok {
+					if _, bound := n.vars[po.Name()]; !bound {
+						n.vars[po.Name()] = x.capture(TV{V: v, T: po.Type()}, &SpecEnv{x: x, st: x.entry})
+					}
+				}
+			}
+			return x.specValue(le, &n)
+		}
 		return x.specValue(le, env)
 	}
 	switch name {
@@ -326,6 +344,9 @@ func (x *Exec) specIdent(e *ast.Ident, env *SpecEnv) TV {
 	}
 	if b, ok := x.modeFlags[name]; ok {
 		return TV{V: boolTerm(b), T: types.Typ[types.Bool]}
+	}
+	if v, ok := x.lookupLocal(name, env); ok {
+		return x.capture(v, env) // locals shadow ghost globals of the same name
 	}
 	if g, ok := x.prog.Contracts.Ghosts[name]; ok && g.Owner == "" {
 		return TV{V: x.getHeap(env.st, x.ghostKey(name))}
@@ -922,7 +943,14 @@ func (x *Exec) specCall(c *ast.CallExpr, env *SpecEnv) TV {
 				return TV{V: x.strLen(vv), T: types.Typ[types.Int]}
 			}
 		}
-		panic("spec: len() of " + exprStr(c))
+		panic(fmt.Sprintf("spec: len() of %s (%T)", exprStr(c), v.V))
+	case "ref":
+		// the reference held by a map-typed expression (map equality in the spec language compares contents)
+		v := arg(0)
+		if mc, ok := v.V.(MapC); ok {
+			return TV{V: mc.Ref}
+		}
+		return TV{V: v.V.(Term)}
 	case "nolocks":
 		var cs []Term
 		for _, l := range x.lockClasses() {
